@@ -234,3 +234,210 @@ theorem loop_terminates (s : TopoS) (bound : Nat) (hb : Bounded s bound) : ∀ (
           exact hf
 
 end Nject
+
+namespace Nject
+
+/-! ### the fuel `reorderFuel` gives is enough -/
+
+theorem le_foldl_max : ∀ (l : List Nat) (a : Nat), a ≤ l.foldl max a ∧ ∀ x ∈ l, x ≤ l.foldl max a
+  | [], a => ⟨Nat.le_refl _, fun _ h => by cases h⟩
+  | b :: l, a => by
+    simp only [List.foldl_cons]
+    have ⟨h1, h2⟩ := le_foldl_max l (max a b)
+    refine ⟨Nat.le_trans (Nat.le_max_left a b) h1, fun x hx => ?_⟩
+    rcases List.mem_cons.mp hx with rfl | hx
+    · exact Nat.le_trans (Nat.le_max_right a x) h1
+    · exact h2 x hx
+
+theorem sum_le_of_all_le (M : Nat) : ∀ (l : List Nat), (∀ x ∈ l, x ≤ M) → l.sum ≤ l.length * M
+  | [], _ => by simp
+  | a :: l, h => by
+    simp only [List.sum_cons, List.length_cons]
+    have := sum_le_of_all_le M l (fun x hx => h x (by simp [hx]))
+    have := h a (by simp)
+    rw [Nat.add_mul]; omega
+
+theorem pendingW_le (s : TopoS) (bound M : Nat) (done : List Nat) (hM : ∀ i, nodeW s i ≤ M) : pendingW s bound done ≤ bound * M := by
+  unfold pendingW
+  have h1 := sum_le_of_all_le M (((List.range bound).filter fun i => !done.contains i).map (nodeW s))
+    (fun x hx => by obtain ⟨i, _, rfl⟩ := List.mem_map.mp hx; exact hM i)
+  have h2 : (((List.range bound).filter fun i => !done.contains i).map (nodeW s)).length ≤ bound := by
+    rw [List.length_map]
+    exact Nat.le_trans (List.length_filter_le _ _) (by simp)
+  exact Nat.le_trans h1 (Nat.mul_le_mul_right M h2)
+
+theorem mem_le_sum : ∀ (l : List Nat) (x : Nat), x ∈ l → x ≤ l.sum
+  | a :: l, x, h => by
+    simp only [List.sum_cons]
+    rcases List.mem_cons.mp h with rfl | h
+    · omega
+    · have := mem_le_sum l x h; omega
+
+/-- the size of any `before` set is at most the number of strong pairs -/
+theorem buildNodes_before_le (g : RGraph) (k : Nat) : ((buildNodes g).before.get k).length ≤ g.strong.length := by
+  unfold buildNodes
+  have key : ∀ (l : List (Nat × Nat)) (ns : Nodes) (c : Nat), (∀ k, (ns.before.get k).length ≤ c) →
+      ∀ k, ((l.foldl (fun (ns : Nodes) (p : Nat × Nat) =>
+        { ns with before := ns.before.set p.2 (setIns (ns.before.get p.2) p.1),
+                  after := ns.after.set p.1 (setIns (ns.after.get p.1) p.2) }) ns).before.get k).length ≤ c + l.length := by
+    intro l
+    induction l with
+    | nil => intro ns c h k; simpa using h k
+    | cons q l ih =>
+      intro ns c h k
+      simp only [List.foldl_cons, List.length_cons]
+      have := ih { ns with before := ns.before.set q.2 (setIns (ns.before.get q.2) q.1),
+                           after := ns.after.set q.1 (setIns (ns.after.get q.1) q.2) } (c + 1) (by
+        intro k'
+        show ((ns.before.set q.2 (setIns (ns.before.get q.2) q.1)).get k').length ≤ c + 1
+        rw [NMap.get_set]
+        split
+        · unfold setIns
+          split
+          · have := h q.2; omega
+          · simp; have := h q.2; omega
+        · have := h k'; omega) k
+      omega
+  have k2 := foldl_keeps (fun (ns : Nodes) (p : Nat × Nat) =>
+    { ns with weakBefore := ns.weakBefore.set p.2 (setIns (ns.weakBefore.get p.2) p.1),
+              weakAfter := ns.weakAfter.set p.1 (setIns (ns.weakAfter.get p.1) p.2) }) (fun _ _ => rfl) (fun _ _ => rfl) g.weak
+  have k3 := foldl_keeps (fun (ns : Nodes) (p : Nat × Nat) =>
+    if !(ns.weakBefore.get p.1).contains p.2 then ns else
+    let wb := ns.weakBefore.set p.2 (setDel (ns.weakBefore.get p.2) p.1)
+    let wb := wb.set p.1 (setDel (wb.get p.1) p.1)
+    let wa := ns.weakAfter.set p.1 (setDel (ns.weakAfter.get p.1) p.2)
+    let wa := wa.set p.2 (setDel (wa.get p.2) p.2)
+    { ns with weakBefore := wb, weakAfter := wa })
+    (fun ns a => by dsimp only; split <;> rfl) (fun ns a => by dsimp only; split <;> rfl) g.weak
+  simp only []
+  rw [(k3 _).1, (k2 _).1]
+  have := key g.strong {} 0 (fun k => by simp [NMap.get, List.lookup]) k
+  simpa using this
+
+theorem getD_out_le (funcs : List CP) (i : Nat) : (noNoType (funcs.getD i default).out).length ≤ (funcs.map (·.out.length)).sum := by
+  have h1 : (noNoType (funcs.getD i default).out).length ≤ (funcs.getD i default).out.length := List.length_filter_le _ _
+  by_cases hi : i < funcs.length
+  · have : (funcs.getD i default).out.length ∈ funcs.map (·.out.length) := by
+      apply List.mem_map.mpr
+      refine ⟨funcs[i], List.getElem_mem hi, ?_⟩
+      simp [List.getD, List.getElem?_eq_getElem hi]
+    have := mem_le_sum _ _ this
+    omega
+  · have : funcs.getD i default = default := by simp [List.getD, List.getElem?_eq_none (Nat.le_of_not_lt hi)]
+    rw [this]
+    have : noNoType (default : CP).out = [] := rfl
+    rw [this]; simp
+
+theorem getD_recv_le (funcs : List CP) (i : Nat) : (noNoType (funcs.getD i default).recv).length ≤ (funcs.map (·.recv.length)).sum := by
+  have h1 : (noNoType (funcs.getD i default).recv).length ≤ (funcs.getD i default).recv.length := List.length_filter_le _ _
+  by_cases hi : i < funcs.length
+  · have : (funcs.getD i default).recv.length ∈ funcs.map (·.recv.length) := by
+      apply List.mem_map.mpr
+      refine ⟨funcs[i], List.getElem_mem hi, ?_⟩
+      simp [List.getD, List.getElem?_eq_getElem hi]
+    have := mem_le_sum _ _ this
+    omega
+  · have : funcs.getD i default = default := by simp [List.getD, List.getElem?_eq_none (Nat.le_of_not_lt hi)]
+    rw [this]
+    have : noNoType (default : CP).recv = [] := rfl
+    rw [this]; simp
+
+theorem topoStatic_bounded (funcs : List CP) (g : RGraph) : Bounded (topoStatic funcs g) (keyBound g funcs.length) := by
+  intro i hi
+  unfold keyBound at hi
+  have ⟨hn, hk⟩ := le_foldl_max (g.strong.map (·.2)) funcs.length
+  unfold nodeW topoStatic
+  simp only []
+  have hb : (buildNodes g).before.get i = [] := by
+    cases hb : (buildNodes g).before.get i with
+    | nil => rfl
+    | cons j rest =>
+      exfalso
+      have hm := (buildNodes_spec g).1 i j (by rw [hb]; simp)
+      have := hk i (List.mem_map.mpr ⟨(j, i), hm, rfl⟩)
+      omega
+  have hd : funcs.getD i default = default := by
+    have : funcs.length ≤ i := by omega
+    simp [List.getD, List.getElem?_eq_none this]
+  rw [hb, hd]
+  rfl
+
+theorem topoInit_queued (funcs : List CP) (g : RGraph) (hasInit : Bool) (hcr : g.cannotReorder.length ≤ funcs.length) :
+    queued (topoInit funcs g hasInit) ≤ (funcs.map (·.out.length)).sum + funcs.length ∧ (topoInit funcs g hasInit).fuelOut = false ∧
+    (topoInit funcs g hasInit).done = [] := by
+  unfold topoInit
+  simp only []
+  have base : queued ({ after := (buildNodes g).after, weakAfter := (buildNodes g).weakAfter, cannotReorder := g.cannotReorder } : Topo)
+      = g.cannotReorder.length := by simp [queued]
+  have hpush : ∀ (l : List Ty) (x : Topo),
+      queued (l.foldl (fun (x : Topo) t => match g.downTypes.lookup t with | some num => x.pushU (topoStatic funcs g) num | none => x) x)
+        ≤ queued x + l.length ∧
+      (l.foldl (fun (x : Topo) t => match g.downTypes.lookup t with | some num => x.pushU (topoStatic funcs g) num | none => x) x).fuelOut = x.fuelOut ∧
+      (l.foldl (fun (x : Topo) t => match g.downTypes.lookup t with | some num => x.pushU (topoStatic funcs g) num | none => x) x).done = x.done := by
+    intro l
+    induction l with
+    | nil => intro x; exact ⟨by simp, rfl, rfl⟩
+    | cons t l ih =>
+      intro x
+      simp only [List.foldl_cons, List.length_cons]
+      cases g.downTypes.lookup t with
+      | none => simp only []; have := ih x; exact ⟨by omega, this.2.1, this.2.2⟩
+      | some num =>
+        simp only []
+        have := ih (x.pushU (topoStatic funcs g) num)
+        have hq : queued (x.pushU (topoStatic funcs g) num) = queued x + 1 := by simp [Topo.pushU, queued]; omega
+        exact ⟨by omega, this.2.1, this.2.2⟩
+  cases hasInit with
+  | false => simp only [Bool.false_eq_true, if_false]; exact ⟨by rw [base]; omega, by first | rfl | trivial, by first | rfl | trivial⟩
+  | true =>
+    simp only [if_true]
+    cases hf : funcs.find? (·.cls == .initFunc) with
+    | none => simp only []; exact ⟨by rw [base]; omega, by first | rfl | trivial, by first | rfl | trivial⟩
+    | some f =>
+      simp only []
+      have ⟨a, b, c⟩ := hpush (noNoType f.out) { after := (buildNodes g).after, weakAfter := (buildNodes g).weakAfter, cannotReorder := g.cannotReorder }
+      refine ⟨Nat.le_trans a ?_, b, c⟩
+      rw [base]
+      have h1 : (noNoType f.out).length ≤ f.out.length := List.length_filter_le _ _
+      have h2 : f.out.length ≤ (funcs.map (·.out.length)).sum :=
+        mem_le_sum _ _ (List.mem_map.mpr ⟨f, List.mem_of_find?_eq_some hf, rfl⟩)
+      omega
+
+/-- **`topo.run` ends within the fuel it is given**: the transcription never runs out of fuel -/
+theorem reorderIdx_terminates {ti : TyInfo} {funcs : List CP} {hasInit : Bool} {r : ReorderOut}
+    (h : reorderIdx ti funcs hasInit = some r) : r.fuelOut = false := by
+  unfold reorderIdx at h
+  simp only [] at h
+  split at h
+  · cases h
+  · injection h with h
+    subst h
+    simp only []
+    generalize hg : buildGraph ti (clearReorder funcs) hasInit = g
+    have hs : SOK (topoStatic (clearReorder funcs) g) g.cannotReorder := hg ▸ reorderStatic_ok ti (clearReorder funcs) hasInit
+    have hcr : g.cannotReorder.length ≤ (clearReorder funcs).length := by
+      rw [hs.nrEq]
+      exact Nat.le_trans (List.length_filter_le _ _) (by simp [topoStatic])
+    have ⟨hq, hf, hd⟩ := topoInit_queued (clearReorder funcs) g hasInit hcr
+    have hb := topoStatic_bounded (clearReorder funcs) g
+    have hM : ∀ i, nodeW (topoStatic (clearReorder funcs) g) i ≤
+        g.strong.length + ((clearReorder funcs).map (·.out.length)).sum + ((clearReorder funcs).map (·.recv.length)).sum := by
+      intro i
+      unfold nodeW topoStatic
+      simp only []
+      have := buildNodes_before_le g i
+      have := getD_out_le (clearReorder funcs) i
+      have := getD_recv_le (clearReorder funcs) i
+      omega
+    have hp := pendingW_le (topoStatic (clearReorder funcs) g) (keyBound g (clearReorder funcs).length) _ [] hM
+    rw [loop_terminates _ (keyBound g (clearReorder funcs).length) hb]
+    · exact hf
+    · unfold work reorderFuel
+      rw [hd]
+      simp only []
+      have : keyBound g (clearReorder funcs).length * (g.strong.length + ((clearReorder funcs).map (·.out.length)).sum + ((clearReorder funcs).map (·.recv.length)).sum)
+          ≤ keyBound g (clearReorder funcs).length * (g.strong.length + ((clearReorder funcs).map (·.out.length)).sum + ((clearReorder funcs).map (·.recv.length)).sum + 1) :=
+        Nat.mul_le_mul_left _ (Nat.le_succ _)
+      omega
+
+end Nject
